@@ -67,19 +67,25 @@ TRUSTED = ["harness/c11.py compares, after every Window.write_to_screen: vertica
            "content cursor, Screen.cursor_positions[window], render_info.visible_line_to_row_col and _rowcol_to_yx "
            "(in insertion order) and every cell of the window body",
            "Ptk/Model/C11.lean is a hand translation of the anchored layout code (correspondence-checked)",
-           "harness/gen_c11.py: get_cwidth / Char.display_mappings tables regenerated from the current tree"]
+           "harness/gen_c11.py: get_cwidth / Char.display_mappings tables regenerated from the current tree, and "
+           "two behavioural probes of get_height_for_line (does the scroll code measure characters as drawn? does "
+           "it wrap non-1-column lines character by character?) that select the matching model variant"]
 ASSUMPTIONS = ["float: window_size / 2 is exact and int() truncates toward zero (|window_size| < 2^53)",
                "get_line_prefix returns plain text depending on (lineno == 0, wrap_count > 0) in the correspondence; "
                "theorems: any prefix-width function with width < window width",
                "no get_vertical_scroll / get_horizontal_scroll callbacks, align = LEFT, no menus / floats",
                "theorems assume every cell is one column wide (get_cwidth = Char.width = 1)"]
-PARTIAL_SCOPE = ["wide and zero-width characters: correspondence only (known finding: wrapped height estimate ignores "
-                 "early wrapping of wide characters)",
+PARTIAL_SCOPE = ["wide and zero-width characters: correspondence + oracle only, theorems assume one-column cells (known "
+                 "finding on the unfixed tree: the wrapped height estimate ignores the early wrapping of wide "
+                 "characters; repaired by proposed_fixes/C11-wide-wrap-height.diff, which the model follows "
+                 "through a probed flag)",
                  "raw control characters (TAB without TabsProcessor, ^X): drawn 2 cells wide but measured 0 by the "
-                 "scroll code (known finding); with TabsProcessor tabs are covered by the theorems",
+                 "scroll code (known finding; repaired by proposed_fixes/C11-control-char-width.diff, probed flag); "
+                 "with a TabsProcessor tabs are covered by the theorems",
+                 "a zero-width character under the cursor has no cell of its own (known finding, own class)",
                  "ShowLeading/TrailingWhiteSpaceProcessor, highlight processors (identity maps) not modelled",
                  "NumberedMargin: only its width is modelled, not the margin text",
-                 "a zero-width character under the cursor is not asserted to have its own cell"]
+                 "get_vertical_scroll / get_horizontal_scroll callbacks, align != LEFT, menus, floats not modelled"]
 
 
 # ------------------------------------------------------------------ real code
@@ -267,7 +273,15 @@ def expected_char(case, text, cur):
     return {Char.display_mappings.get(ch, ch)}
 
 
+def zero_width_under_cursor(text, cur):
+    under = text[cur] if cur < len(text) else " "
+    return under not in "\n\t" and get_cwidth(under) == 0 and under not in Char.display_mappings
+
+
 def sig_class(case, step, text, cur):
+    if zero_width_under_cursor(text, cur):
+        # a combining character has no cell of its own (it is merged into the previous cell)
+        return "zero-width character under the cursor"
     wide = any(get_cwidth(ch) != 1 for ch in text if ch not in "\n\t") or \
         any(get_cwidth(ch) != 1 for p in (case.get("prefix") or []) for ch in p) or \
         any(get_cwidth(ch) != 1 for p in case.get("procs", []) for a in p[1:] if isinstance(a, str) for ch in a)
@@ -320,8 +334,7 @@ def check_render(rig, step, sc, wp):
     # (3) on the character it addresses
     cell = sc.data_buffer[cp.y][cp.x].char
     exp = expected_char(case, text, cur)
-    under = text[cur] if cur < len(text) else " "
-    if under != "\n" and under != "\t" and get_cwidth(under) == 0 and under not in Char.display_mappings:
+    if zero_width_under_cursor(text, cur):
         pass  # a zero-width (combining) character has no cell of its own: not asserted
     elif cell not in exp and not (cell[:1] in exp and all(get_cwidth(c) == 0 for c in cell[1:])):
         bad("Window._copy_body", f"{mode}, {cls}: cursor not on its character",
